@@ -10,8 +10,13 @@ package props
 //      result must equal what the native keepers / queries report on the same state.
 
 import (
+	"os"
+	"encoding/base64"
+
 	"encoding/json"
 	"fmt"
+	"github.com/cosmos/cosmos-sdk/crypto/keys/ed25519"
+	stakingpc "github.com/haqq-network/haqq/precompiles/staking"
 	"math/big"
 	"sort"
 	"strings"
@@ -46,7 +51,45 @@ type C16Case struct {
 	Amt     string   `json:"amt"`      // milli-ISLM (abs) or offset in base units (balance/delegation)
 	Unknown bool     `json:"unknown_validator"`
 	Height  int64    `json:"creation_height_off"`
-	To      string   `json:"to"` // setWithdraw target
+	To      string   `json:"to"`               // setWithdraw target
+	Signer  string   `json:"signer,omitempty"` // "" (plain delegator) | vesting (clawback vesting account with locked coins) | operator (validator operator)
+	Create  int      `json:"create,omitempty"` // createValidator parameter variant
+}
+
+var c16ConsKey = ed25519.GenPrivKeyFromSecret([]byte("c16-new-validator"))
+
+type c16Create struct {
+	desc                     stakingtypes.Description
+	rate, maxRate, maxChange sdkmath.LegacyDec
+	minSelf                  *big.Int
+}
+
+func c16CreateArgs(c C16Case) c16Create {
+	d := func(s string) sdkmath.LegacyDec { return sdkmath.LegacyMustNewDecFromStr(s) }
+	cv := c16Create{desc: stakingtypes.NewDescription("newval", "", "https://x.example", "", "generated"), rate: d("0.10"), maxRate: d("0.20"), maxChange: d("0.01"), minSelf: big.NewInt(1)}
+	switch c.Create {
+	case 1:
+		cv.rate = d("0.30") // above max rate
+	case 2:
+		cv.minSelf = new(big.Int).Exp(big.NewInt(10), big.NewInt(30), nil) // above any value
+	case 3:
+		cv.desc.Moniker = ""
+	case 4:
+		cv.maxChange = d("0.25") // above max rate
+	case 5:
+		cv.rate = d("0") // below a minimum commission, if any
+	}
+	return cv
+}
+
+func c16Signer(c C16Case) chain.Account {
+	switch c.Signer {
+	case "vesting":
+		return pxVest
+	case "operator":
+		return chain.ValOp(c.Val % 3)
+	}
+	return pxSigner
 }
 
 func genC16(t *rapid.T) C16Case {
@@ -56,18 +99,24 @@ func genC16(t *rapid.T) C16Case {
 		c.Prelude = append(c.Prelude, C16Pre{K: rapid.SampledFrom([]string{"delegate", "undelegate", "undelegate", "setw"}).Draw(t, "pk"),
 			Val: rapid.IntRange(0, 2).Draw(t, "pval"), Amt: rapid.SampledFrom([]string{"1000", "250000", "1000000"}).Draw(t, "pamt")})
 	}
-	c.Method = rapid.SampledFrom([]string{"delegate", "delegate", "undelegate", "undelegate", "redelegate", "redelegate", "cancelUnbonding", "withdraw", "setWithdraw"}).Draw(t, "method")
+	c.Method = rapid.SampledFrom([]string{"delegate", "delegate", "undelegate", "undelegate", "redelegate", "redelegate", "cancelUnbonding", "withdraw", "setWithdraw", "createValidator", "createValidator", "withdrawCommission"}).Draw(t, "method")
 	c.Val = rapid.IntRange(0, 2).Draw(t, "val")
 	c.Val2 = rapid.IntRange(0, 2).Draw(t, "val2")
 	c.AmtMode = rapid.SampledFrom([]string{"abs", "abs", "balance", "delegation", "delegation"}).Draw(t, "amtmode")
 	if c.AmtMode == "abs" {
-		c.Amt = rapid.SampledFrom([]string{"0", "1", "1000", "500000", "20000000", "99999999999"}).Draw(t, "amt")
+		// 1,200,000 ISLM lies between the vesting signer's unlocked coins and its balance
+		c.Amt = rapid.SampledFrom([]string{"0", "1", "1000", "500000", "20000000", "1200000000", "1200000000", "99999999999"}).Draw(t, "amt")
 	} else {
 		c.Amt = rapid.SampledFrom([]string{"0", "-1", "1", "-1000000000000000000"}).Draw(t, "amtoff")
 	}
 	c.Unknown = rapid.IntRange(0, 9).Draw(t, "unknown") == 0
 	c.Height = rapid.SampledFrom([]int64{0, 0, 0, 1, -1}).Draw(t, "hoff")
 	c.To = rapid.SampledFrom([]string{"w", "third", "signer"}).Draw(t, "to")
+	c.Signer = rapid.SampledFrom([]string{"", "", "vesting", "vesting", "operator"}).Draw(t, "signer")
+	c.Create = rapid.SampledFrom([]int{0, 0, 0, 1, 2, 3, 4, 5}).Draw(t, "create")
+	if c.Method == "withdrawCommission" && rapid.IntRange(0, 3).Draw(t, "op") > 0 {
+		c.Signer = "operator"
+	}
 	return c
 }
 
@@ -76,6 +125,7 @@ func runC16(st *ev.Stats, c C16Case) string {
 	fail := func(key, what string) string { return st.Discrepancy(key, what, c) }
 	price := new(big.Int).Mul(gwei10, big.NewInt(10))
 	feeColl := authtypes.NewModuleAddress(authtypes.FeeCollectorName)
+	S := c16Signer(c)
 	type outcome struct {
 		ok   bool
 		fee  *big.Int
@@ -89,9 +139,9 @@ func runC16(st *ev.Stats, c C16Case) string {
 		app := n.App
 		vals := pxVals(n)
 		cosmos := func(msgs ...sdk.Msg) (bool, *big.Int, string) {
-			num, seq := txb.AccInfo(n.Ctx(), app, pxSigner.Addr)
+			num, seq := txb.AccInfo(n.Ctx(), app, S.Addr)
 			gas := uint64(1500000)
-			bz := txb.CosmosTx(pxSigner, txb.Cosmos{Msgs: msgs, Gas: gas, Fee: coinsOfGas(gas, price), ChainID: chain.ChainID, AccNum: num, Seq: seq})
+			bz := txb.CosmosTx(S, txb.Cosmos{Msgs: msgs, Gas: gas, Fee: coinsOfGas(gas, price), ChainID: chain.ChainID, AccNum: num, Seq: seq})
 			b0 := n.Balance(feeColl)
 			res := n.DeliverTx(bz)
 			return res.Code == 0, new(big.Int).Sub(n.Balance(feeColl), b0), res.Log
@@ -101,11 +151,11 @@ func runC16(st *ev.Stats, c C16Case) string {
 			coin := sdk.NewCoin(chain.Denom, sdkmath.NewIntFromBigInt(milli(p.Amt)))
 			switch p.K {
 			case "delegate":
-				cosmos(stakingtypes.NewMsgDelegate(pxSigner.Addr, v, coin))
+				cosmos(stakingtypes.NewMsgDelegate(S.Addr, v, coin))
 			case "undelegate":
-				cosmos(stakingtypes.NewMsgUndelegate(pxSigner.Addr, v, coin))
+				cosmos(stakingtypes.NewMsgUndelegate(S.Addr, v, coin))
 			case "setw":
-				cosmos(distrtypes.NewMsgSetWithdrawAddress(pxSigner.Addr, pxW.Addr))
+				cosmos(distrtypes.NewMsgSetWithdrawAddress(S.Addr, pxW.Addr))
 			}
 		}
 		// resolve arguments against the (identical) state
@@ -117,10 +167,10 @@ func runC16(st *ev.Stats, c C16Case) string {
 		var amt *big.Int
 		switch c.AmtMode {
 		case "balance":
-			amt = new(big.Int).Add(n.Balance(pxSigner.Addr), bigOf(c.Amt))
+			amt = new(big.Int).Add(n.Balance(S.Addr), bigOf(c.Amt))
 		case "delegation":
 			amt = new(big.Int)
-			if d, found := app.StakingKeeper.GetDelegation(n.Ctx(), pxSigner.Addr, val); found {
+			if d, found := app.StakingKeeper.GetDelegation(n.Ctx(), S.Addr, val); found {
 				if v, ok := app.StakingKeeper.GetValidator(n.Ctx(), val); ok {
 					amt = v.TokensFromShares(d.Shares).TruncateInt().BigInt()
 				}
@@ -134,17 +184,17 @@ func runC16(st *ev.Stats, c C16Case) string {
 		}
 		coin := sdk.Coin{Denom: chain.Denom, Amount: sdkmath.NewIntFromBigInt(amt)}
 		h := int64(1)
-		if ubd, found := app.StakingKeeper.GetUnbondingDelegation(n.Ctx(), pxSigner.Addr, val); found && len(ubd.Entries) > 0 {
+		if ubd, found := app.StakingKeeper.GetUnbondingDelegation(n.Ctx(), S.Addr, val); found && len(ubd.Entries) > 0 {
 			h = ubd.Entries[0].CreationHeight
 		}
 		h += c.Height
-		to := sdk.AccAddress(pxAddrOf(c.To, pxSigner.Hex).Bytes())
+		to := sdk.AccAddress(pxAddrOf(c.To, S.Hex).Bytes())
 		// features of the state that select which listed finding (if any) can apply
 		feat := "plain"
-		if pxPending(n, pxSigner.Addr) != "" && hasPositive(pxPending(n, pxSigner.Addr), val.String()) && c.Method != "withdraw" && c.Method != "setWithdraw" {
+		if pxPending(n, S.Addr) != "" && hasPositive(pxPending(n, S.Addr), val.String()) && c.Method != "withdraw" && c.Method != "setWithdraw" {
 			feat = "pending-rewards"
 		}
-		if c.Method == "withdraw" && !app.DistrKeeper.GetDelegatorWithdrawAddr(n.Ctx(), pxSigner.Addr).Equals(pxSigner.Addr) {
+		if c.Method == "withdraw" && !app.DistrKeeper.GetDelegatorWithdrawAddr(n.Ctx(), S.Addr).Equals(S.Addr) {
 			feat = "custom-withdraw-address"
 		}
 		var ok bool
@@ -154,17 +204,25 @@ func runC16(st *ev.Stats, c C16Case) string {
 			var msg sdk.Msg
 			switch c.Method {
 			case "delegate":
-				msg = &stakingtypes.MsgDelegate{DelegatorAddress: pxSigner.Addr.String(), ValidatorAddress: val.String(), Amount: coin}
+				msg = &stakingtypes.MsgDelegate{DelegatorAddress: S.Addr.String(), ValidatorAddress: val.String(), Amount: coin}
 			case "undelegate":
-				msg = &stakingtypes.MsgUndelegate{DelegatorAddress: pxSigner.Addr.String(), ValidatorAddress: val.String(), Amount: coin}
+				msg = &stakingtypes.MsgUndelegate{DelegatorAddress: S.Addr.String(), ValidatorAddress: val.String(), Amount: coin}
 			case "redelegate":
-				msg = &stakingtypes.MsgBeginRedelegate{DelegatorAddress: pxSigner.Addr.String(), ValidatorSrcAddress: val.String(), ValidatorDstAddress: val2.String(), Amount: coin}
+				msg = &stakingtypes.MsgBeginRedelegate{DelegatorAddress: S.Addr.String(), ValidatorSrcAddress: val.String(), ValidatorDstAddress: val2.String(), Amount: coin}
 			case "cancelUnbonding":
-				msg = &stakingtypes.MsgCancelUnbondingDelegation{DelegatorAddress: pxSigner.Addr.String(), ValidatorAddress: val.String(), Amount: coin, CreationHeight: h}
+				msg = &stakingtypes.MsgCancelUnbondingDelegation{DelegatorAddress: S.Addr.String(), ValidatorAddress: val.String(), Amount: coin, CreationHeight: h}
 			case "withdraw":
-				msg = distrtypes.NewMsgWithdrawDelegatorReward(pxSigner.Addr, val)
+				msg = distrtypes.NewMsgWithdrawDelegatorReward(S.Addr, val)
 			case "setWithdraw":
-				msg = distrtypes.NewMsgSetWithdrawAddress(pxSigner.Addr, to)
+				msg = distrtypes.NewMsgSetWithdrawAddress(S.Addr, to)
+			case "withdrawCommission":
+				msg = distrtypes.NewMsgWithdrawValidatorCommission(sdk.ValAddress(S.Addr))
+			case "createValidator":
+				cv := c16CreateArgs(c)
+				m, err := stakingtypes.NewMsgCreateValidator(sdk.ValAddress(S.Addr), c16ConsKey.PubKey(), coin, cv.desc,
+					stakingtypes.NewCommissionRates(cv.rate, cv.maxRate, cv.maxChange), sdkmath.NewIntFromBigInt(cv.minSelf))
+				must(err)
+				msg = m
 			}
 			ok, fee, log = cosmos(msg)
 		} else {
@@ -172,20 +230,28 @@ func runC16(st *ev.Stats, c C16Case) string {
 			var data []byte
 			switch c.Method {
 			case "delegate":
-				target, data = pabi.StakingAddr, pabi.Pack("staking", "delegate", pxSigner.Hex, val.String(), amt)
+				target, data = pabi.StakingAddr, pabi.Pack("staking", "delegate", S.Hex, val.String(), amt)
 			case "undelegate":
-				target, data = pabi.StakingAddr, pabi.Pack("staking", "undelegate", pxSigner.Hex, val.String(), amt)
+				target, data = pabi.StakingAddr, pabi.Pack("staking", "undelegate", S.Hex, val.String(), amt)
 			case "redelegate":
-				target, data = pabi.StakingAddr, pabi.Pack("staking", "redelegate", pxSigner.Hex, val.String(), val2.String(), amt)
+				target, data = pabi.StakingAddr, pabi.Pack("staking", "redelegate", S.Hex, val.String(), val2.String(), amt)
 			case "cancelUnbonding":
-				target, data = pabi.StakingAddr, pabi.Pack("staking", "cancelUnbondingDelegation", pxSigner.Hex, val.String(), amt, big.NewInt(h))
+				target, data = pabi.StakingAddr, pabi.Pack("staking", "cancelUnbondingDelegation", S.Hex, val.String(), amt, big.NewInt(h))
 			case "withdraw":
-				target, data = pabi.DistributionAddr, pabi.Pack("distribution", "withdrawDelegatorRewards", pxSigner.Hex, val.String())
+				target, data = pabi.DistributionAddr, pabi.Pack("distribution", "withdrawDelegatorRewards", S.Hex, val.String())
 			case "setWithdraw":
-				target, data = pabi.DistributionAddr, pabi.Pack("distribution", "setWithdrawAddress", pxSigner.Hex, to.String())
+				target, data = pabi.DistributionAddr, pabi.Pack("distribution", "setWithdrawAddress", S.Hex, to.String())
+			case "withdrawCommission":
+				target, data = pabi.DistributionAddr, pabi.Pack("distribution", "withdrawValidatorCommission", sdk.ValAddress(S.Addr).String())
+			case "createValidator":
+				cv := c16CreateArgs(c)
+				target, data = pabi.StakingAddr, pabi.Pack("staking", "createValidator",
+					stakingpc.Description{Moniker: cv.desc.Moniker, Identity: cv.desc.Identity, Website: cv.desc.Website, SecurityContact: cv.desc.SecurityContact, Details: cv.desc.Details},
+					stakingpc.Commission{Rate: cv.rate.BigInt(), MaxRate: cv.maxRate.BigInt(), MaxChangeRate: cv.maxChange.BigInt()},
+					cv.minSelf, S.Hex, sdk.ValAddress(S.Addr).String(), base64.StdEncoding.EncodeToString(c16ConsKey.PubKey().Bytes()), amt)
 			}
-			_, seq := txb.AccInfo(n.Ctx(), app, pxSigner.Addr)
-			bz := txb.EthTx(pxSigner, txb.Eth{Type: 0, ChainID: big.NewInt(11235), Nonce: seq, To: &target, Value: big.NewInt(0), Gas: 1500000, GasPrice: price, Data: data})
+			_, seq := txb.AccInfo(n.Ctx(), app, S.Addr)
+			bz := txb.EthTx(S, txb.Eth{Type: 0, ChainID: big.NewInt(11235), Nonce: seq, To: &target, Value: big.NewInt(0), Gas: 1500000, GasPrice: price, Data: data})
 			b0 := n.Balance(feeColl)
 			res := n.DeliverTx(bz)
 			vmErr, _ := decodeEthResponse(res.Data)
@@ -195,10 +261,13 @@ func runC16(st *ev.Stats, c C16Case) string {
 		return outcome{ok, fee, n.DumpStores(), log, feat}
 	}
 	a, b := run(false), run(true)
+	if os.Getenv("VERIF_DEBUG") != "" {
+		fmt.Printf("DEBUG C16 precompile ok=%v (%s)\n            native ok=%v (%s)\n", a.ok, trunc(a.log), b.ok, trunc(b.log))
+	}
 	if a.ok != b.ok {
 		return fail("outcome-differs:"+c.Method, fmt.Sprintf("precompile call succeeded=%v (%s) but native message succeeded=%v (%s)", a.ok, trunc(a.log), b.ok, trunc(b.log)))
 	}
-	signerKey, feeKey := bankBalanceKey(pxSigner.Addr), bankBalanceKey(feeColl)
+	signerKey, feeKey := bankBalanceKey(S.Addr), bankBalanceKey(feeColl)
 	stores := map[string]bool{}
 	var first string
 	for _, d := range chain.DiffStores(b.dump, a.dump) {
@@ -237,10 +306,14 @@ func runC16(st *ev.Stats, c C16Case) string {
 		}
 		return ""
 	}
+	st.Class("signer:" + S.Label)
 	if a.ok {
-		st.Class("both-succeed:" + c.Method)
+		st.Class("both-succeed:" + c.Method + ":" + c.Signer)
+		if c.Signer == "vesting" {
+			st.NonTrivial(c)
+		}
 	} else {
-		st.Class("both-fail:" + c.Method)
+		st.Class("both-fail:" + c.Method + ":" + c.Signer)
 		st.NonTrivial(c)
 	}
 	return ""
@@ -276,8 +349,8 @@ func runC16Query(st *ev.Stats, c C16Case) string {
 		return pabi.ABI(name).Unpack(method, res.Ret)
 	}
 	val, _ := app.StakingKeeper.GetValidator(ctx, vals[c.Val%len(vals)].GetOperator()) // re-read after the prelude
-	multi := 0
-	for _, who := range []chain.Account{pxSigner, pxThird} {
+	multi, registered := 0, 0
+	for _, who := range []chain.Account{pxSigner, pxThird, pxVest} {
 		// delegation(delegator, validator) -> (shares, balance)
 		out, err := call("staking", "delegation", who.Hex, val.OperatorAddress)
 		d, found := app.StakingKeeper.GetDelegation(ctx, who.Addr, val.GetOperator())
@@ -317,6 +390,7 @@ func runC16Query(st *ev.Stats, c C16Case) string {
 		gotB := fmt.Sprint(out[0])
 		for _, coin := range app.BankKeeper.GetAllBalances(ctx, who.Addr) {
 			if addr, err := app.Erc20Keeper.GetCoinAddress(ctx, coin.Denom); err == nil {
+				registered++
 				if !containsAll(gotB, coin.Amount.String(), addr.Hex()) {
 					return fail("query-differs:bank.balances", fmt.Sprintf("balance %s (token %s) missing from %s", coin, addr.Hex(), trunc(gotB)))
 				}
@@ -345,6 +419,19 @@ func runC16Query(st *ev.Stats, c C16Case) string {
 	})
 	if serr != "" {
 		return fail("query-differs:bank.totalSupply", serr)
+	}
+	if registered == 0 {
+		return fail("harness:no-registered-denomination", "no queried account holds a denomination with an ERC20 address: the bank comparison would be vacuous")
+	}
+	// supplyOf(token) for every registered pair
+	for _, pair := range app.Erc20Keeper.GetTokenPairs(ctx) {
+		out, err := call("bank", "supplyOf", pair.GetERC20Contract())
+		if err != nil {
+			return fail("query-failed:bank.supplyOf", err.Error())
+		}
+		if want := app.BankKeeper.GetSupply(ctx, pair.Denom).Amount.BigInt(); out[0].(*big.Int).Cmp(want) != 0 {
+			return fail("query-differs:bank.supplyOf", fmt.Sprintf("supplyOf(%s) = %s, bank supply of %s is %s", pair.Erc20Address, out[0], pair.Denom, want))
+		}
 	}
 	st.Class("queries-agree")
 	if multi > 0 {
